@@ -76,7 +76,13 @@ def gen_recipe(rng: random.Random) -> dict[str, Any]:
     else:
         rec = recipes.gen_rg_circuit(rng, monotonic=True, normalized=True, rg=rg,
                                      kinds=["categorical"], allow_classes=False)
-        rec["input"] = {"type": "gaussian_sig", "sigma": 1e-3}
+        if rng.random() < 0.4:
+            # discrete and continuous input layers in one circuit (k = number of units >= 2)
+            rec["input"] = {"type": "mixed_sig", "sigma": 1e-3, "shift": rng.randrange(3)}
+            rec["ni"] = max(2, rec["ni"])
+            rec["ns"] = max(2, rec["ns"]) if rec["sp"] in ("cp-t", "tucker") else rec["ns"]
+        else:
+            rec["input"] = {"type": "gaussian_sig", "sigma": 1e-3}
         # the number of unit combinations enumerated is ni ** num_vars
         rec["ni"] = min(rec["ni"], 3)
         recipes.fix_units(rec)
@@ -90,7 +96,8 @@ def gen_recipe(rng: random.Random) -> dict[str, Any]:
         # not region-graph shaped: a DAG whose inputs / sub-circuits have several parents
         from . import dag_recipes
 
-        dag = dag_recipes.gen_dag(rng, input_spec=rec["input"], sum_spec=rec["sum"], max_vars=4)
+        dag = dag_recipes.gen_dag(rng, input_spec=rec["input"], sum_spec=rec["sum"], max_vars=4,
+                                  min_units=2 if rec["input"]["type"] == "mixed_sig" else 1)
         dag.update({"rg": {"algo": "dag"}, "sp": "dag", "nary": "dense", "ni": dag["units"],
                     "ns": dag["units"]})
         rec = dag
@@ -157,20 +164,27 @@ class Exact:
 def exact_distribution(cc: Any, rec: dict[str, Any], semiring: str) -> Exact | None:
     inp = rec["input"]
     D = len(cc.scope)
-    if inp["type"] == "gaussian_sig":
+    if inp["type"] in ("gaussian_sig", "mixed_sig"):
         ni = int(rec["ni"])
         sigma = float(inp["sigma"])
         if ni**D > MAX_STATES:
             return None
         units = oracles.all_states(D, ni)
         X = units.astype(np.float64) + 10.0 * np.arange(D)[None, :]
+        ngauss = D
+        if inp["type"] == "mixed_sig":
+            # odd variables are one-hot categoricals over k = ni values: unit u emits (v+u+shift) % k
+            odd = np.arange(D) % 2 == 1
+            cat = (np.arange(D)[None, :] + units + int(inp.get("shift", 0))) % ni
+            X = np.where(odd[None, :], cat.astype(np.float64), X)
+            ngauss = int((~odd).sum())
         y = oracles.evaluate(cc, X)[:, 0, 0]
-        logc = D * np.log(sigma * np.sqrt(2 * np.pi))
+        logc = ngauss * np.log(sigma * np.sqrt(2 * np.pi))
         if semiring == "sum-product":
             p = y.numpy().astype(np.float64) * np.exp(logc)
         else:
             p = np.exp(y.numpy().astype(np.float64) + logc)
-        return Exact(units, p, "gaussian_sig", ni)
+        return Exact(units, p, inp["type"], ni)
     kind, k = recipes.input_domain(inp)
     if kind != "discrete" or k**D > MAX_STATES:
         return None
@@ -268,7 +282,7 @@ class WorldC:
         return True
 
     def _discrete(self) -> bool:
-        return self.rec["input"]["type"] != "gaussian_sig"
+        return self.rec["input"]["type"] not in ("gaussian_sig", "mixed_sig")
 
     def run(self) -> dict[str, Any]:
         for i, op in enumerate(self.plan["ops"]):
@@ -350,8 +364,8 @@ class WorldC:
             # out of reach, shape / domain / attribution are not
             self.tr.count("sample:too-many-states")
             inp = self.rec["input"]
-            if inp["type"] == "gaussian_sig":
-                self._attribution(s, "gaussian_sig", int(self.rec["ni"]), D, n)
+            if inp["type"] in ("gaussian_sig", "mixed_sig"):
+                self._attribution(s, inp["type"], int(self.rec["ni"]), D, n)
             else:
                 kd = recipes.input_domain(inp)
                 if kd[0] == "discrete":
@@ -367,6 +381,9 @@ class WorldC:
         rows = self._attribution(s, ex.kind, ex.k, D, n)
         if ex.kind == "gaussian_sig" and n >= 200:
             self._gaussian_noise(s, float(self.rec["input"]["sigma"]), D, n)
+        elif ex.kind == "mixed_sig" and n >= 200:
+            cols = [v for v in range(D) if v % 2 == 0]
+            self._gaussian_noise(s[:, cols], float(self.rec["input"]["sigma"]), len(cols), n)
         # Q2 support
         mult = ex.k ** np.arange(D - 1, -1, -1)
         ptab = np.zeros(ex.k ** D)
@@ -398,6 +415,23 @@ class WorldC:
 
     def _attribution(self, s: np.ndarray, kind: str, kdom: int, D: int, n: int) -> np.ndarray:
         """Q1 (domain) and Q3 (attribution): returns the samples as integer outcome rows."""
+        if kind == "mixed_sig":
+            odd = np.arange(D) % 2 == 1
+            shift = int(self.rec["input"].get("shift", 0))
+            r = np.rint(s)
+            unit = r - 10.0 * np.arange(D)[None, :]
+            catu = (r - np.arange(D)[None, :] - shift) % kdom  # inverse of (v + u + shift) % k
+            bad_g = (np.abs(s - r) > 0.1) | (unit < 0) | (unit >= kdom)
+            bad_c = (s != r) | (r < 0) | (r >= kdom)
+            bad = np.where(odd[None, :], bad_c, bad_g)
+            if bad.any():
+                j = int(np.argmax(bad.any(axis=1)))
+                raise Violation(
+                    "Q3", f"row {j} = {s[j].round(3).tolist()}: some column does not carry the signature "
+                          f"of its own variable (even: 10*v + unit, odd: a category in [0, {kdom})) "
+                          f"[{self._where()}]")
+            self.tr.count("cmp:Q3", n)
+            return np.where(odd[None, :], catu, unit).astype(np.int64)
         if kind == "gaussian_sig":
             r = np.rint(s)
             # Q3: column v must carry the signature of variable v (mean 10*v + u, sigma 1e-3)
